@@ -177,3 +177,51 @@ def roundtrips(a):
         return parse(a.serialize()) == a
     except Exception:  # noqa
         return False
+
+
+def ranked_oracle(chk, name, cases, fn, classify, key_fn=None, nontrivial_fn=None):
+    """evaluate `fn` on every case first, then hand the cases to chk.oracle ordered so that failures outside every known
+    finding come first and the known findings alternate (core keeps only the first few failures of an oracle)"""
+    res = {}
+    for idx, c in enumerate(cases):
+        try:
+            res[idx] = fn(c)
+        except Exception as e:  # noqa
+            res[idx] = f'unexpected {type(e).__name__}: {e}'
+    groups = {}
+    okc = []
+    for idx, c in enumerate(cases):
+        r = res[idx]
+        if r is None:
+            okc.append(idx)
+        else:
+            kid = classify({'oracle': name, 'case': core_jsonable(c), 'detail': r})
+            groups.setdefault(kid or '', []).append(idx)
+    order = list(groups.pop('', []))
+    rest = [list(v) for _, v in sorted(groups.items())]
+    while any(rest):
+        for g in rest:
+            if g:
+                order.append(g.pop(0))
+    order += okc
+    it = iter(order)
+    cur = {}
+
+    def prop(c):
+        return res[cur['i']]
+
+    class _Seq:
+        def __iter__(self_inner):
+            for i in order:
+                cur['i'] = i
+                yield cases[i]
+
+    return chk.oracle(name, _Seq(), prop, nontrivial_fn=nontrivial_fn, key_fn=key_fn)
+
+
+def core_jsonable(c):
+    import json
+    try:
+        return json.loads(json.dumps(c))
+    except TypeError:
+        return repr(c)
